@@ -199,10 +199,10 @@ func checkC11(c *Check) {
 	}
 	class := map[string]string{
 		"compiler.(*Options).ToParserOptions": "activates the constant-parameter analysis",
-		"compiler.(*compiler).exitFuncScope":   "callee side of the copy elision (decided under R11.1)",
-		"compiler.(*compiler).VisitFuncCall":   "caller side of the copy elision (decided under R11.1)",
-		"compiler.Compile":                     "selects whether LLVM's passes run",
-		"compiler.DumpListDefinitions":         "selects whether LLVM's passes run on the list definitions",
+		"compiler.(*compiler).exitFuncScope":  "callee side of the copy elision (decided under R11.1)",
+		"compiler.(*compiler).VisitFuncCall":  "caller side of the copy elision (decided under R11.1)",
+		"compiler.Compile":                    "selects whether LLVM's passes run",
+		"compiler.DumpListDefinitions":        "selects whether LLVM's passes run on the list definitions",
 	}
 	sort.Slice(readers, func(i, j int) bool { return readers[i].fn+readers[i].how < readers[j].fn+readers[j].how })
 	seen := map[string]int{}
